@@ -113,6 +113,37 @@ func errResult(ret *ssa.Return) (ssa.Value, bool) {
 	return v, true
 }
 
+// isClientCode: a function of the root package that belongs to the netlink/audit client — that
+// is, not to the reassembler (decided by receiver type and by the reassembler's constructors,
+// not by the file a function happens to live in).
+func (x *client) isClientCode(fn *ssa.Function) bool {
+	root := rootFn(fn)
+	if recv := root.Signature.Recv(); recv != nil {
+		t := recv.Type()
+		if p, ok := t.(*types.Pointer); ok {
+			t = p.Elem()
+		}
+		if n, ok := types.Unalias(t).(*types.Named); ok {
+			name := n.Obj().Name()
+			if cn, renamed := canonType[n.Obj()]; renamed {
+				name = cn
+			}
+			switch name {
+			case "Reassembler", "eventList", "event", "sequenceNum", "sequenceNumSlice":
+				return false
+			}
+		}
+		return true
+	}
+	if fo, ok := root.Object().(*types.Func); ok {
+		switch funcObjName(fo) {
+		case "NewReassembler", "newEventList", "abs":
+			return false
+		}
+	}
+	return root.Synthetic == ""
+}
+
 // fileOf returns the base name of the file a function is declared in.
 func (w *World) fileOf(fn *ssa.Function) string {
 	return filepath.Base(w.Fset.Position(rootFn(fn).Pos()).Filename)
@@ -479,8 +510,7 @@ func (x *client) failFastInLoops() {
 	r := x.r
 	r.Rule("C08.R7", "fail fast in loops: in every loop of a client command, an iteration in which a call to a repository function returned a non-nil error returns a non-nil error from that iteration or joins the error (it does not go round the loop again, where a later success could overwrite it)", 3)
 	for _, fn := range x.w.PkgFuncs("libaudit") {
-		f := x.w.fileOf(fn)
-		if f != "audit.go" || fn.Parent() != nil {
+		if !x.isClientCode(fn) || fn.Parent() != nil {
 			continue
 		}
 		for li, l := range NaturalLoops(fn) {
@@ -560,8 +590,7 @@ func (x *client) noErrorDropped() {
 		"libaudit.NewNetlinkClient syscall.Close": "best-effort close of a socket that is being abandoned on a constructor failure path (the original error is returned)",
 	}
 	for _, fn := range x.w.PkgFuncs("libaudit") {
-		f := x.w.fileOf(fn)
-		if f != "audit.go" && f != "netlink.go" {
+		if !x.isClientCode(fn) {
 			continue
 		}
 		instrsOf(fn, func(in ssa.Instruction) {
